@@ -23,6 +23,7 @@ import (
 	"net"
 	"net/netip"
 	"os"
+	"runtime"
 	"sort"
 	"strings"
 	"sync"
@@ -60,10 +61,12 @@ type c07Remote struct {
 }
 
 type c07Rec struct {
-	mu    sync.Mutex
-	start time.Time
-	out   []string // messages written by the daemon, in order: "<tag>:<what>@<sec>"
-	state []string // peer state events from the watcher "OLD>NEW/admin"
+	mu          sync.Mutex
+	start       time.Time
+	out         []string // messages written by the daemon, in order: "<tag>:<what>@<sec>"
+	state       []string // peer state events from the watcher "OLD>NEW/admin"
+	reason      []string // their state reasons (fsmStateReason.String()), same indices
+	lastReasons []string // reasons of the transitions returned by the last drain()
 }
 
 func (r *c07Rec) now() int { return int(time.Since(r.start) / time.Second) }
@@ -72,15 +75,17 @@ func (r *c07Rec) add(s string) {
 	r.out = append(r.out, fmt.Sprintf("%s@%d", s, r.now()))
 	r.mu.Unlock()
 }
-func (r *c07Rec) addState(s string) {
+func (r *c07Rec) addState(s string, reason string) {
 	r.mu.Lock()
 	r.state = append(r.state, s)
+	r.reason = append(r.reason, reason)
 	r.mu.Unlock()
 }
 func (r *c07Rec) drain() (out, st []string) {
 	r.mu.Lock()
 	out, st = r.out, r.state
-	r.out, r.state = nil, nil
+	r.lastReasons = r.reason
+	r.out, r.state, r.reason = nil, nil, nil
 	r.mu.Unlock()
 	return
 }
@@ -148,13 +153,13 @@ const (
 )
 
 type c07Sess struct {
-	t    *testing.T
-	cfg  c07Cfg
-	s    *BgpServer
-	peer *peer
-	rec  *c07Rec
-	pas  *c07Remote
-	out  *c07Remote
+	t     *testing.T
+	cfg   c07Cfg
+	s     *BgpServer
+	peer  *peer
+	rec   *c07Rec
+	pas   *c07Remote
+	out   *c07Remote
 	w     *watcher
 	nPfx  int
 	extra []*c07Remote
@@ -181,7 +186,11 @@ func c07Start(t *testing.T, cfg c07Cfg) *c07Sess {
 	go func() {
 		for ev := range w.Event() {
 			if p, ok := ev.(*watchEventPeer); ok {
-				ss.rec.addState(fmt.Sprintf("%d>%d/%d@%d", int(p.OldState), int(p.State), int(p.AdminState), ss.rec.now()))
+				why := ""
+				if p.StateReason != nil {
+					why = p.StateReason.String()
+				}
+				ss.rec.addState(fmt.Sprintf("%d>%d/%d@%d", int(p.OldState), int(p.State), int(p.AdminState), ss.rec.now()), why)
 			}
 		}
 	}()
@@ -403,18 +412,18 @@ func (ss *c07Sess) listPeer() (sess, admin int, found bool) {
 // events
 
 type c07Ev struct {
-	kind                string // connect outgoing open keepalive update refresh notification badheader close tick enable disable shutdown reset delete
-	ver, as, id, hold   int    // open / outgoing; as = value of the 4-octet-AS capability
-	myas                int    // … the 2-octet My-AS field
-	nocap               bool   // … OPEN without the 4-octet-AS capability
-	n                   int    // update: prefixes, badheader: kind, tick: seconds
+	kind              string // connect outgoing open keepalive update refresh notification badheader close tick enable disable shutdown reset delete
+	ver, as, id, hold int    // open / outgoing; as = value of the 4-octet-AS capability
+	myas              int    // … the 2-octet My-AS field
+	nocap             bool   // … OPEN without the 4-octet-AS capability
+	n                 int    // update: prefixes, badheader: kind, tick: seconds
 }
 
 func (e c07Ev) line() string {
 	switch e.kind {
 	case "open", "outgoing":
 		return fmt.Sprintf("ev %s %s", e.kind, e.wire())
-	case "update", "tick":
+	case "update", "tick", "connlost":
 		return fmt.Sprintf("ev %s %d", e.kind, e.n)
 	case "badheader":
 		return fmt.Sprintf("ev badheader %d", e.n)
@@ -500,6 +509,17 @@ func (ss *c07Sess) apply(e c07Ev, ibgp bool) {
 		ss.send(ss.cur(), c07BadHeader(e.n))
 	case "close":
 		ss.closeCur()
+	case "connlost":
+		// the transport dies inside a message: 1 inside the header, 2 right after a complete,
+		// valid header that announces a body, 3 inside that body
+		msg := ss.update(1, ibgp)
+		cut := map[int]int{1: 10, 2: bgp.BGP_HEADER_LENGTH, 3: bgp.BGP_HEADER_LENGTH + (len(msg)-bgp.BGP_HEADER_LENGTH)/2}[e.n]
+		if e.n == 3 && ss.nPfx%2 == 0 {
+			msg = c07Open(65002, "2.2.2.2", 90, 4) // … of an OPEN as well as of an UPDATE
+			cut = bgp.BGP_HEADER_LENGTH + 5
+		}
+		ss.send(ss.cur(), msg[:cut])
+		ss.closeCur()
 	case "tick":
 		time.Sleep(time.Duration(e.n) * time.Second)
 	case "enable":
@@ -519,7 +539,8 @@ func (ss *c07Sess) apply(e c07Ev, ibgp bool) {
 // observation after an event, in the model's rendering
 type c07Obs struct {
 	out, st    []string
-	fsm, admin int // bgp.FSMState / adminState numbering; fsm = -1: peer gone
+	reasons    []string // state reasons of st, not part of the compared answer
+	fsm, admin int      // bgp.FSMState / adminState numbering; fsm = -1: peer gone
 	rib        int
 	global     int
 }
@@ -547,7 +568,7 @@ func (ss *c07Sess) observe() c07Obs {
 			st[i] = "deleted" + s[strings.Index(s, "@"):]
 		}
 	}
-	ob := c07Obs{out: canon, st: st, rib: ss.ribCount(), global: ss.globalCount()}
+	ob := c07Obs{out: canon, st: st, reasons: ss.rec.lastReasons, rib: ss.ribCount(), global: ss.globalCount()}
 	se, ad, found := ss.listPeer()
 	if found {
 		ob.fsm, ob.admin = se-1, ad-1
@@ -696,6 +717,21 @@ func (or *c07Oracle) check(e c07Ev, before c07Obs, tBefore int, after c07Obs, tA
 			or.fail(fmt.Sprintf("notification:unexpected:state%d-%s", before.fsm, e.kind), "got "+got)
 		}
 	}
+	// --- transport faults: a connection lost at ANY point of a message, in every state that
+	// reads, is noticed at once: IDLE at this very instant, reason read-failed, nothing written
+	if (e.kind == "close" || e.kind == "connlost") && before.fsm >= 3 {
+		point := map[int]string{0: "between-messages", 1: "inside-header", 2: "after-header", 3: "inside-body"}[e.n]
+		class := fmt.Sprintf("transport-fault-not-noticed:state%d:%s", before.fsm, point)
+		down := fmt.Sprintf("%d>0/", before.fsm)
+		switch {
+		case len(after.st) == 0 || !strings.HasPrefix(after.st[0], down) || !strings.HasSuffix(after.st[0], fmt.Sprintf("@%d", tAfter)):
+			or.fail(class, fmt.Sprintf("connection lost at %d: reported transitions %v, state %d (want %s…@%d at once)", tAfter, after.st, after.fsm, down, tAfter))
+		case len(after.reasons) == 0 || after.reasons[0] != "read-failed":
+			or.fail(class, fmt.Sprintf("connection lost at %d: state reason %q, want read-failed", tAfter, after.reasons))
+		case len(after.out) != 0:
+			or.fail(class, fmt.Sprintf("connection lost at %d: the daemon wrote %v", tAfter, after.out))
+		}
+	}
 	// --- transitions: allowed edges only, contiguous, ESTABLISHED only after OPEN then KEEPALIVE
 	if e.kind == "connect" && before.fsm == 2 {
 		or.rxOpen, or.rxKa = false, false
@@ -832,11 +868,11 @@ func c07Gen(r *vRand, cfg c07Cfg, state int, hold int) c07Ev {
 	case 2:
 		k = w("connect", 60, "outgoing", 8, "tick", 8, "disable", 6, "enable", 4, "shutdown", 4, "reset", 3, "keepalive", 2, "update", 2, "delete", 2, "close", 1)
 	case 3:
-		k = w("open", 60, "keepalive", 4, "update", 3, "notification", 3, "refresh", 2, "badheader", 6, "close", 4, "tick", 8, "disable", 4, "enable", 2, "shutdown", 2, "reset", 1, "connect", 2, "delete", 1)
+		k = w("open", 60, "keepalive", 4, "update", 3, "notification", 3, "refresh", 2, "badheader", 6, "close", 3, "connlost", 5, "tick", 8, "disable", 4, "enable", 2, "shutdown", 2, "reset", 1, "connect", 2, "delete", 1)
 	case 4:
-		k = w("keepalive", 50, "tick", 16, "open", 4, "update", 4, "refresh", 3, "notification", 4, "badheader", 5, "close", 4, "disable", 4, "enable", 2, "shutdown", 2, "reset", 1, "connect", 2, "delete", 1)
+		k = w("keepalive", 50, "tick", 16, "open", 4, "update", 4, "refresh", 3, "notification", 4, "badheader", 5, "close", 3, "connlost", 6, "disable", 4, "enable", 2, "shutdown", 2, "reset", 1, "connect", 2, "delete", 1)
 	case 5:
-		k = w("keepalive", 18, "update", 20, "tick", 24, "refresh", 4, "notification", 4, "open", 4, "badheader", 5, "close", 3, "disable", 4, "shutdown", 4, "reset", 4, "enable", 2, "connect", 2, "delete", 2)
+		k = w("keepalive", 18, "update", 20, "tick", 24, "refresh", 4, "notification", 4, "open", 4, "badheader", 5, "close", 3, "connlost", 8, "disable", 4, "shutdown", 4, "reset", 4, "enable", 2, "connect", 2, "delete", 2)
 	default:
 		k = w("tick", 3, "connect", 3, "enable", 1, "keepalive", 1)
 	}
@@ -848,6 +884,8 @@ func c07Gen(r *vRand, cfg c07Cfg, state int, hold int) c07Ev {
 		e.n = r.pick(1, 1, 2, 3)
 	case "badheader":
 		e.n = r.intn(4)
+	case "connlost":
+		e.n = 1 + r.intn(3)
 	case "tick":
 		e.n = c07GenTick(r, hold)
 	}
@@ -882,7 +920,15 @@ func c07Scenario(t *testing.T, o *vOut, cfg c07Cfg, seed uint64, maxLen int, scr
 			} else if len(pending) > 0 {
 				e, pending = pending[0], pending[1:]
 			} else {
-				if before.fsm == 5 && hold > 1 && r.chance(12) {
+				if before.fsm >= 3 && r.chance(7) {
+					// a lost connection must also stop the hold timer and the keepalive ticker
+					pending = []c07Ev{{kind: "connlost", n: r.intn(4)}, {kind: "tick", n: r.pick(4, 241, max(hold, 1)+1)}}
+					if pending[0].n == 0 {
+						pending[0] = c07Ev{kind: "close"}
+					}
+					e, pending = pending[0], pending[1:]
+					o.stat("macro_fault_then_silence", 1)
+				} else if before.fsm == 5 && hold > 1 && r.chance(12) {
 					// a receive just before the hold timer would fire must restart it
 					rx := c07Ev{kind: "keepalive"}
 					if r.chance(40) {
@@ -897,6 +943,15 @@ func c07Scenario(t *testing.T, o *vOut, cfg c07Cfg, seed uint64, maxLen int, scr
 			}
 			if e.kind == "outgoing" && before.fsm != 2 {
 				e = c07Ev{kind: "tick", n: 1} // the hand-over is only modelled in ACTIVE
+			}
+			if e.kind == "outgoing" {
+				// the harness plays the outgoing-connection manager, which only hands over
+				// connections whose OPEN it has validated
+				chk := e
+				chk.kind = "open"
+				if _, bad := c07RfcNotif(3, chk, cfg, 0); bad {
+					e.nocap, e.myas = false, c07MyAS(e.as)
+				}
 			}
 			if (e.kind == "open" && before.fsm == 3) || e.kind == "outgoing" {
 				ibgp = e.eff() == int(cfg.localAS)
@@ -916,6 +971,31 @@ func c07Scenario(t *testing.T, o *vOut, cfg c07Cfg, seed uint64, maxLen int, scr
 			}
 			o.ask(after.String(), "%s", e.line())
 			or.check(e, before, tb, after, ss.rec.now())
+			if after.fsm == 4 && before.fsm != 4 {
+				// the connection has just become the session's: the OPEN recorded for it must
+				// be one RFC 4271 lets us accept and the timers must come from it
+				ss.peer.fsm.lock.Lock()
+				used := ss.peer.fsm.recvOpen
+				neg := int(ss.peer.fsm.pConf.ReadOnly().Timers.State.NegotiatedHoldTime)
+				ss.peer.fsm.lock.Unlock()
+				path := map[int]string{3: "opensent", 2: "handover-active"}[before.fsm]
+				if used == nil {
+					or.fail("session-from-unvalidated-open:"+path, "OPENCONFIRM without a recorded OPEN")
+				} else {
+					b := used.Body.(*bgp.BGPOpen)
+					ue := c07Ev{kind: "open", ver: int(b.Version), myas: int(b.MyAS), nocap: true, id: c07IDNum(b.ID.String()), hold: int(b.HoldTime)}
+					if as := getASN(b); as != uint32(b.MyAS) || !e.nocap {
+						ue.nocap, ue.as = e.nocap, e.as // capability as sent; the AS is judged by the oracle's own rule
+					}
+					if sub, bad := c07RfcNotif(3, ue, cfg, 0); bad || ue.hold != e.hold || ue.id != e.id {
+						or.fail("session-from-unvalidated-open:"+path, fmt.Sprintf("session negotiated from OPEN %+v (sent %s; RFC verdict %q)", ue, e.wire(), sub))
+					}
+					if neg != min(e.hold, cfg.hold) {
+						or.fail("session-from-unvalidated-open:timers:"+path, fmt.Sprintf("negotiated hold %d from OPEN hold %d, configured %d", neg, e.hold, cfg.hold))
+					}
+				}
+				o.stat("session_open_checked_"+path, 1)
+			}
 			o.stat(fmt.Sprintf("ev_%s_in_%d", e.kind, before.fsm), 1)
 			for _, s := range after.out {
 				if j := strings.Index(s, ":notif-"); j >= 0 {
@@ -1193,6 +1273,12 @@ func c07Corpus(t *testing.T, o *vOut) bool {
 		{ev("connect"), op(90), ev("disable")},
 		// a KEEPALIVE / UPDATE restarts the hold timer, a ROUTE-REFRESH does not
 		{ev("connect"), op(30), ev("keepalive"), tick(29), ev("keepalive"), tick(29), {kind: "update", n: 1}, tick(29), ev("refresh"), tick(1)},
+		// transport faults inside a message, in each reading state, then silence
+		{ev("connect"), {kind: "connlost", n: 2}, tick(241)},
+		{ev("connect"), op(30), {kind: "connlost", n: 3}, tick(31)},
+		{ev("connect"), op(30), ev("keepalive"), {kind: "update", n: 2}, {kind: "connlost", n: 2}, tick(31)},
+		{ev("connect"), op(30), ev("keepalive"), {kind: "connlost", n: 3}, tick(4)},
+		{ev("connect"), op(30), ev("keepalive"), {kind: "connlost", n: 1}, tick(31)},
 		// reset: IdleHoldTimeAfterReset
 		{ev("connect"), op(90), ev("keepalive"), ev("reset"), tick(29), tick(1)},
 		// hand-over by the outgoing-connection manager in ACTIVE
@@ -1215,6 +1301,7 @@ func c07Corpus(t *testing.T, o *vOut) bool {
 		c07Scenario(t, o, eb, 1, 6, []c07Ev{ev("connect"), c07OpenEv("open", 70002, c07IDNum("1.1.1.1"), 90), ev("keepalive"), {kind: "update", n: 1}, tick(1)})
 	}
 	c07CollisionSilentIncoming(t, o, base)
+	c07Collisions(t, o)
 	c07PrefixLimitGR(t, o)
 	return true
 }
@@ -1315,4 +1402,173 @@ func c07CollisionSilentIncoming(t *testing.T, o *vOut, cfg c07Cfg) {
 		ss.send(ss.pas, c07Open(65002, "2.2.2.2", 90, 4))
 		synctest.Wait()
 	})
+}
+
+// ---------------------------------------------------------------------------------------------
+// Connection collision in OPENSENT, both orders forced deterministically by holding fsm.lock
+// (opensent() takes it right after it has picked up either event):
+//   incoming-first: the accepted connection's OPEN is handled (`case e := <-recvChan`) while a
+//                   completed outgoing connection already waits in fsm.outgoingConnCh;
+//   outgoing-first: the completed outgoing connection is picked up (`case result := …`) while the
+//                   accepted connection's OPEN is already pending;
+//   both-ready:     both events are staged while the handler is parked inside its select loop; the
+//                   select picks the order at random (run twice), the outcome tells which.
+// x local speaker dominant or not x the accepted connection's OPEN acceptable / unacceptable in
+// each way.  Compared with the model's collideIncomingFirst / collideOutgoingFirst; oracle: by
+// whatever path a connection becomes the session's, the OPEN the session is negotiated from is
+// one RFC 4271 lets us accept, the timers come from it, and with two acceptable OPENs the
+// survivor is the connection initiated by the higher (identifier, AS).
+
+func c07Spin(cond func() bool) {
+	for i := 0; i < 200000 && !cond(); i++ {
+		runtime.Gosched()
+	}
+}
+
+func c07Collision(t *testing.T, o *vOut, cfg c07Cfg, path string, inc, out c07Ev) {
+	synctest.Test(t, func(t *testing.T) {
+		ss := c07Start(t, cfg)
+		defer ss.stop()
+		ss.connect()
+		synctest.Wait()
+		ss.rec.drain()
+		f := ss.peer.fsm
+		if f.state.Load() != bgp.BGP_FSM_OPENSENT {
+			t.Fatalf("collision scenario: not in OPENSENT")
+		}
+		f.lock.Lock()
+		if path == "both-ready" {
+			// park the handler inside its select loop (an adminStateUp request makes it take
+			// fsm.lock in changeadminState and then loop), stage BOTH events, release it: Go's
+			// select then picks one of the two orders at random
+			_ = ss.s.EnablePeer(context.Background(), &api.EnablePeerRequest{Address: c07PeerAddr})
+			c07Spin(func() bool { return len(f.adminStateCh) == 0 })
+			n0 := runtime.NumGoroutine()
+			ss.send(ss.pas, inc.bytes())
+			c07Spin(func() bool { return runtime.NumGoroutine() < n0 })
+			ss.outgoing(out.bytes())
+		} else if path == "outgoing-first" {
+			ss.outgoing(out.bytes())
+			c07Spin(func() bool { return len(f.outgoingConnCh) == 0 }) // picked up: now waits for the lock
+			n0 := runtime.NumGoroutine()
+			ss.send(ss.pas, inc.bytes())
+			c07Spin(func() bool { return runtime.NumGoroutine() < n0 }) // the reader has queued it and is gone
+			c07Spin(func() bool { return false })
+		} else {
+			n0 := runtime.NumGoroutine()
+			ss.send(ss.pas, inc.bytes())
+			c07Spin(func() bool { return runtime.NumGoroutine() < n0 })
+			c07Spin(func() bool { return false }) // the handler has taken it and waits for the lock (or has refused it)
+			ss.outgoing(out.bytes())
+		}
+		f.lock.Unlock()
+		synctest.Wait()
+		msgs, _ := ss.rec.drain()
+		sent := strings.Join(msgs, " ")
+		st := f.state.Load()
+		f.lock.Lock()
+		used := f.recvOpen
+		conf := f.pConf.ReadOnly()
+		negHold := int(conf.Timers.State.NegotiatedHoldTime)
+		f.lock.Unlock()
+		got := fmt.Sprintf("state-%d [%s]", int(st), sent)
+		var usedEv *c07Ev
+		onConn := ""
+		switch {
+		case st == bgp.BGP_FSM_OPENCONFIRM && used != nil:
+			b := used.Body.(*bgp.BGPOpen)
+			id := c07IDNum(b.ID.String())
+			switch {
+			case strings.Contains(sent, "o:ka@") && !strings.Contains(sent, "p:ka@"):
+				onConn = "o"
+			case strings.Contains(sent, "p:ka@") && !strings.Contains(sent, "o:ka@"):
+				onConn = "p"
+			}
+			got = fmt.Sprintf("session %s hold=%d id=%d", onConn, b.HoldTime, id)
+			if int(b.HoldTime) == inc.hold && id == inc.id {
+				usedEv = &inc
+			} else {
+				usedEv = &out
+			}
+		case st == bgp.BGP_FSM_IDLE || st == bgp.BGP_FSM_ACTIVE:
+			if i := strings.Index(sent, "p:notif-"); i >= 0 {
+				got = "refused " + sent[i+8:strings.Index(sent[i:], "@")+i]
+			}
+		}
+		if path == "both-ready" {
+			// which order the select took shows only when the accepted connection's OPEN is
+			// unacceptable (refused vs. outgoing connection simply taken); otherwise both agree
+			path = "outgoing-first"
+			if strings.HasPrefix(got, "refused") || strings.HasPrefix(got, "session p") {
+				path = "incoming-first"
+			}
+			o.stat("collision_both-ready_took_"+path, 1)
+		}
+		o.ask(got, "collide %s %d %d %d %s %s", path, cfg.localAS, c07IDNum(cfg.localID), cfg.peerAS, inc.wire(), out.wire())
+		detail := map[string]any{"cfg": fmt.Sprintf("%+v", cfg), "path": path, "incoming-open": inc.wire(), "outgoing-open": out.wire(),
+			"what": fmt.Sprintf("daemon wrote [%s]; state %v; session OPEN hold=%v; negotiated hold %d", sent, st, got, negHold)}
+		incBad, incIsBad := c07RfcNotif(3, c07Ev{kind: "open", ver: inc.ver, as: inc.as, myas: inc.myas, nocap: inc.nocap, id: inc.id, hold: inc.hold}, cfg, 0)
+		if usedEv != nil {
+			if _, bad := c07RfcNotif(3, c07Ev{kind: "open", ver: usedEv.ver, as: usedEv.as, myas: usedEv.myas, nocap: usedEv.nocap, id: usedEv.id, hold: usedEv.hold}, cfg, 0); bad {
+				o.fail("session-from-unvalidated-open:collision-"+path, detail)
+			}
+			if want := min(usedEv.hold, cfg.hold); negHold != want || (negHold != 0 && negHold < 3) {
+				o.fail("session-from-unvalidated-open:timers:collision-"+path, detail)
+			}
+			if (usedEv == &inc) != (onConn == "p") {
+				o.fail("session-from-unvalidated-open:wrong-connection:collision-"+path, detail)
+			}
+			if !incIsBad {
+				// two acceptable OPENs of one speaker: RFC 4271 6.8 / RFC 6286 decide
+				localWins := uint64(c07IDNum(cfg.localID))<<32|uint64(cfg.localAS) > uint64(out.id)<<32|uint64(out.eff())
+				if localWins != (onConn == "o") {
+					o.fail("collision-rule:survivor:"+path, detail)
+				}
+				loser := map[string]string{"o": "p:close@", "p": "o:close@"}[onConn]
+				if !strings.Contains(sent, loser) {
+					o.fail("collision-rule:loser-not-closed:"+path, detail)
+				}
+			}
+		} else if incIsBad && path == "incoming-first" {
+			if got != "refused "+incBad {
+				o.fail("notification:state3-open", detail)
+			}
+		} else {
+			o.fail("collision:no-session:"+path, detail)
+		}
+		o.stat("collision_"+path+"_"+strings.Fields(got)[0], 1)
+	})
+}
+
+func c07Collisions(t *testing.T, o *vOut) {
+	local := c07IDNum("1.1.1.1")
+	for _, path := range []string{"incoming-first", "outgoing-first", "both-ready", "both-ready"} {
+		for _, rid := range []int{c07IDNum("2.2.2.2"), c07IDNum("1.1.1.0")} { // remote wins / local wins
+			for kind := 0; kind < 8; kind++ {
+				cfg := c07Cfg{localAS: 65001, peerAS: 65002, localID: "1.1.1.1", hold: 90, idleAfterReset: 30}
+				out := c07OpenEv("outgoing", 65002, rid, 90)
+				inc := c07OpenEv("open", 65002, rid, 30)
+				switch kind {
+				case 0: // acceptable
+				case 1:
+					inc.hold = 1
+				case 2:
+					inc.hold = 2
+				case 3:
+					inc.as, inc.myas = 65003, 65003
+				case 4:
+					inc.id = 0
+				case 5:
+					inc.ver = 3
+				case 6: // iBGP in a 4-octet AS, our own identifier
+					cfg.localAS, cfg.peerAS = 70000, 70000
+					out = c07OpenEv("outgoing", 70000, rid, 90)
+					inc = c07OpenEv("open", 70000, local, 30)
+				case 7: // acceptable, hold time 0 on the accepted connection
+					inc.hold = 0
+				}
+				c07Collision(t, o, cfg, path, inc, out)
+			}
+		}
+	}
 }
